@@ -205,7 +205,8 @@ PLACE_FILE = {"second_root": ("root2", "cb/src/b.rs"), "third_root": ("root3", "
               "ann_abs_path_alone": ("root1", "cb/src/b.rs"), "ann_spaced_alone": ("root1", "cb/src/b.rs"), "ann_path_alone": ("root1", "cb/src/b.rs")}
 # an annotated item that cannot be generated (a u64 field) in a file of its own, next to two good files of the same crate; the collector
 # is made to receive the files in the order the place names (TYPESHARE_VERIF_ORDER): the run fails wherever the bad file arrives
-BAD_ORDER = {"bad_item_arrives_first": "Second,First,Third", "bad_item_arrives_middle": "First,Second,Third", "bad_item_arrives_last": "First,Third,Second"}
+# (the result of the bad file has no first type name: it is the empty name of the order list)
+BAD_ORDER = {"bad_item_arrives_first": ",First,Third", "bad_item_arrives_middle": "First,,Third", "bad_item_arrives_last": "First,Third,"}
 for _k in BAD_ORDER:
     PLACE_FILE[_k] = ("root1", "ca/src/bad.rs")
 # the annotation of the item that is ALONE in its file, in the spellings other than #[typeshare]
